@@ -22,13 +22,13 @@ RULE = ("grids of 1-4 parameters x 1-4 values (scalars, strings, lists, tuples, 
         "scenarios a failing execution is injected at EVERY batch position in turn (constructor or system); non-trivial "
         "= >=2 simulated workers with a completion order different from submission order, or an injected failure; "
         "distinct = (grid shape, repetitions, processes, collector form, completion permutation, failure plan)"
-        "; also: a second batch in the same process, reused / pre-built / sibling-edited ParameterLists, one-shot collector iterables, models with their own `timestep` attribute, failure classes incl. StopIteration, KeyError ... and the package's own exceptions (exceptions cross the pickle boundary too); rare switch for known finding F11")
+        "; also: a second batch in the same process, reused / pre-built / sibling-edited ParameterLists, one-shot collector iterables, models with their own `timestep` attribute, failure classes incl. StopIteration, KeyError ... and the package's own exceptions (exceptions cross the pickle boundary too); rare switch for known finding F11; fault pool.kill_at_terminate: workers killed by Pool.terminate() - fatal (hang) when one is still running or sending")
 COMPONENTS = {"real": ["ECAgent.Batching.batch_run", "_run_model_for_batch", "_build_model_from_kwargs", "ParameterList",
                        "ECAgent.Core.Model / SystemManager", "ECAgent.Collectors.Collector",
                        "multiprocessing.Pool (real-pool arm only, schedule not controlled)"],
               "stub": ["multiprocessing.Pool -> simkit.simpool.SimPool (discrete-event pool, pickle boundary kept)",
                        "models/systems/collectors are harness workloads (props/workloads.py)"]}
-PROBES = ["completion_reordered", "all_results_from_one_worker", "tie_in_finish_times", "fail_first", "fail_last",
+PROBES = ["error_surfaced_while_other_workers_busy", "completion_reordered", "all_results_from_one_worker", "tie_in_finish_times", "fail_first", "fail_last",
           "max_ts_at_completion", "max_ts_below_completion", "max_ts_zero", "reps_single_combination",
           "collectors_none", "collectors_empty_list", "collectors_invalid", "parameterlist_input", "serial_order_checked",
           "second_batch_same_process", "parameterlist_reused_edit_returned", "parameterlist_reused_grid_search_first", "sibling_parameterlist_edited",
@@ -148,9 +148,14 @@ def generate(rng, tier):
     prebuild = None
     if rng.random() < 0.25:
         prebuild = rng.choice(["edit_returned", "grid_search_first", "build_only"])
+    pool = gen_pool(rng, size * reps)
+    if fail is not None:
+        # fault: a worker is killed by Pool.terminate() while it is still sending its result (only matters when the code
+        # under test terminates a pool whose workers are busy - e.g. by leaving `with Pool(...)` on an exception)
+        pool["kill_mid_send"] = rng.random() < 0.6
     return {"sibling": rng.random() < 0.15, "shadow_timestep": rng.choice([None, None, None, None, 0.25, 2.0, 7]),
             "prebuild": prebuild, "second": second, "grid": grid, "via": rng.choice(["dict", "plist"]), "reps": reps, "max_ts": max_ts, "collectors": coll,
-            "processes": procs, "base_stop": base_stop, "spread": spread, "pool": gen_pool(rng, size * reps),
+            "processes": procs, "base_stop": base_stop, "spread": spread, "pool": pool,
             "fail": fail}
 
 
@@ -270,6 +275,10 @@ def one_batch(ctx, sc, fail, label):
                          f"{(fail or {}).get('exc')}): {h}", finding="F11" if (fail or {}).get("exc") == "TwoArgError" else None)
     finally:
         B.Pool = old
+    if stats.get("failure_while_busy"):
+        ctx.probe("error_surfaced_while_other_workers_busy")
+    if stats.get("terminated") and fail is not None and sc["pool"].get("kill_mid_send"):
+        ctx.fault("pool.kill_at_terminate")     # the workers were killed at terminate(); fatal only if one was mid-send
     after = [(k, repr(v)) for k, v in (params._parameters if isinstance(params, B.ParameterList) else params).items()]
     ctx.check(after == before, "caller-parameters-modified", f"batch_run changed the caller's parameters: {after} was {before}")
     form = sc["collectors"]["form"]
@@ -442,6 +451,47 @@ def _real_one(sc):
     return None
 
 
+def _real_failing_batch(i, procs=16, execs=40, pad=2_000_000, limit_s=180):
+    """One failing execution among `execs` whose results are several MB each, through the genuine pool, in a child
+    process under a watchdog: the error must come out of batch_run. (Interleaving not controlled: this arm only confirms
+    that the simulator's terminate-while-busy fault is something the real pool does.)"""
+    import os
+    import select
+    import signal
+    import time
+    r, w = os.pipe()
+    pid = os.fork()
+    if pid == 0:
+        try:
+            os.setsid()
+            os.close(r)
+            combos = list(range(execs))
+            bad = W.sig_of({"p0": combos[(7 * i + 5) % execs]})
+            W.reset({"base_stop": 2, "spread": 1, "collectors_defined": COLLECTORS, "pad": pad,
+                     "fail": {"sig": bad, "where": "system", "t": 1, "exc": "BatchFailure"}})
+            try:
+                B.batch_run(W.BatchModel, {"p0": combos}, "col0", processes=procs)
+                out = "returned"
+            except W.BatchFailure:
+                out = "raised"
+            except BaseException as e:   # noqa
+                out = "other:" + type(e).__name__
+            os.write(w, out.encode())
+        finally:
+            os._exit(0)
+    os.close(w)
+    t0 = time.time()
+    ready, _, _ = select.select([r], [], [], limit_s)
+    out = os.read(r, 200).decode() if ready else ""
+    os.close(r)
+    try:
+        os.killpg(pid, signal.SIGKILL)      # the child and whatever workers it left behind
+    except OSError:
+        pass
+    os.waitpid(pid, 0)
+    return out, round(time.time() - t0, 2)
+
+
 def post_batch(tier, seed):
     import random
     import time
@@ -449,6 +499,18 @@ def post_batch(tier, seed):
     n = 2 if tier == "quick" else 150
     t0 = time.time()
     done = 0
+    fb = []
+    for i in range(2 if tier == "quick" else 6):
+        out, wall = _real_failing_batch(i)
+        fb.append([out or "no answer", wall])
+        if out != "raised":
+            what = ("batch_run did not return within 180 s (hang)" if not out else
+                    "batch_run returned normally" if out == "returned" else f"the caller saw {out[6:]}")
+            return {"violation": {"arm": "real multiprocessing.Pool (schedule not controlled; replay = re-run, best effort)",
+                                  "kind": "real-pool:error-never-reached-the-caller",
+                                  "detail": f"40 executions with 4-6 MB of records each, processes=16, one execution raises "
+                                            f"BatchFailure at t=1: {what}",
+                                  "scenario": {"real_failing_batch": i}}}
     for i in range(n):
         rng = random.Random(run_seed(seed, "C15-real", i))
         sc = generate(rng, tier)
@@ -460,6 +522,6 @@ def post_batch(tier, seed):
         if v is not None:
             return {"violation": {"arm": "real multiprocessing.Pool (schedule not controlled; replay = re-run, best effort)",
                                   **v}}
-    return {"evidence": {"real_pool_arm": {"batches": done, "wall_s": round(time.time() - t0, 2),
+    return {"evidence": {"real_pool_arm": {"batches": done, "failing_batches_large_results": fb, "wall_s": round(time.time() - t0, 2),
                                            "note": "real multiprocessing.Pool, fork workers, micro-sleeps; schedule not "
                                                    "controlled; record oracles only (no ledger across processes)"}}}
